@@ -57,6 +57,8 @@ EXPRESSION_METADATA = {
         }
     },
     exp.DateBin: {"annotator": lambda self, e: self._annotate_by_args(e, "expression")},
+    # DuckDB: NULLIF(a, b) has the type of a (b is only compared with it), not the common supertype
+    exp.Nullif: {"annotator": lambda self, e: self._annotate_by_args(e, "this")},
     exp.PercentileDisc: {"annotator": lambda self, e: self._annotate_by_args(e, "this")},
     exp.Localtimestamp: {"returns": exp.DType.TIMESTAMP},
     exp.ToDays: {"returns": exp.DType.INTERVAL},
